@@ -23,14 +23,26 @@ thread_local! {
     /// every flow key of the running scenario with the offset its reader has reached
     static FLOWS: std::cell::RefCell<HashMap<u64, u64>> = std::cell::RefCell::new(HashMap::new());
 }
-fn flows_reset() { FLOWS.with(|f| f.borrow_mut().clear()); }
+thread_local! {
+    /// flows of the few scenarios before the running one (a process-wide cache inside the library could carry bytes over)
+    static OLD_FLOWS: std::cell::RefCell<std::collections::VecDeque<HashMap<u64, u64>>> = std::cell::RefCell::new(Default::default());
+}
+fn flows_reset() {
+    let cur = FLOWS.with(|f| std::mem::take(&mut *f.borrow_mut()));
+    OLD_FLOWS.with(|o| { let mut o = o.borrow_mut(); o.push_back(cur); while o.len() > 6 { o.pop_front(); } });
+}
 fn flow_note(key: u64, dlv: u64) { FLOWS.with(|f| { f.borrow_mut().insert(key, dlv); }); }
 /// Whose bytes are these, if not the reader's own?
 fn origin(own_key: u64, data: &[u8]) -> &'static str {
     FLOWS.with(|f| {
         for (k, dlv) in f.borrow().iter() {
             if *k != own_key && !data.is_empty() && (pgen::matches(*k, *dlv, data) || pgen::matches(*k, 0, data)) { return "other"; }
+            // a read that STARTS with at least 4 of another flow's next bytes (foreign bytes in front of the reader's own)
+            if *k != own_key && data.len() > 4 && (pgen::matches(*k, *dlv, &data[..4]) || pgen::matches(*k, 0, &data[..4])) { return "other"; }
         }
+        // bytes of a stream of an earlier scenario (another session altogether)
+        let old = OLD_FLOWS.with(|o| o.borrow().iter().any(|m| m.iter().any(|(k, dlv)| !data.is_empty() && (pgen::matches(*k, *dlv, &data[..data.len().min(4)]) && (data.len() >= 2 || true)))));
+        if old && data.len() >= 2 { return "other"; }
         "unknown"
     })
 }
@@ -119,6 +131,7 @@ enum Step {
     Read(u32, usize),
     RSub(u32, usize, u8), // real side submits: via 0 = send_data, 1 = write_data_frame
     StallSub(u32, usize, u64), // real side submits while the transport accepts only a few more bytes, for so many seconds
+    DropStream(u32), // the consumer gives up: every handle the harness holds on the newest stream object of this id is dropped
     Quiesce,
 }
 
@@ -299,6 +312,14 @@ impl RigB {
                 quiesce().await;
                 self.obs.observe(log, &self.out);
             }
+            Step::DropStream(sid) => {
+                // (a reader that has taken part of a chunk leaves a remainder behind; whatever the session does with the
+                // freed object, no later stream may see those bytes)
+                self.collect_new_streams().await;
+                if let Some(i) = self.readers.iter().rposition(|x| x.sid == *sid) { let rd = self.readers.remove(i); drop(rd); }
+                self.streams.remove(sid);
+                quiesce().await;
+            }
             Step::StallSub(sid, len, secs) => {
                 // back-pressure: the peer stops draining in the middle of a frame and resumes much later
                 self.collect_new_streams().await;
@@ -393,7 +414,8 @@ fn random_steps(r: &mut Rng, server_role: bool) -> Vec<Step> {
             2..=6 => Step::Psh(sid, match r.below(6) { 0 => 0, 1 => r.range(1, 10) as usize, 2 => r.range(1, 3000) as usize, 3 => *r.pick(&[8191usize, 8192, 8193, 65535]), _ => r.range(1, 500) as usize }),
             7 => if server_role || r.chance(1, 2) { Step::Fin(sid) } else { Step::Dispatch },
             8 | 9 => Step::Dispatch,
-            10 | 11 => Step::Read(sid, *r.pick(&[1usize, 3, 7, 64, 8192, 70000])),
+            10 => Step::Read(sid, *r.pick(&[1usize, 3, 7, 64, 8192, 70000])),
+            11 => if r.chance(1, 3) { Step::DropStream(sid) } else { Step::Read(sid, *r.pick(&[1usize, 2, 3, 7])) },
             12 | 13 => Step::RSub(sid, match r.below(5) { 0 => 0, 1 => *r.pick(&[65535usize, 65536, 70000, 131072]), _ => r.range(1, 9000) as usize }, r.below(2) as u8),
             14 => if r.chance(1, 3) { Step::StallSub(sid, r.range(1, 9000) as usize, *r.pick(&[1u64, 9, 11, 31, 61, 301, 3601])) } else { Step::Quiesce },
             _ => Step::Psh(r.range(5, 9) as u32, r.range(0, 50) as usize), // never-opened id
@@ -423,15 +445,23 @@ async fn run_rig_a(log: &Log, descr: Value, seed: u64) {
     let _ = pr.client.clone().start_client().await;
     let nstreams = r.range(1, if small { 2 } else { 5 }) as usize;
     let mut cstreams = Vec::new();
-    for i in 0..nstreams {
-        match pr.client.open_stream().await {
-            Ok((st, rx)) => { std::mem::forget(rx); ev!(log, "open", sid: st.id()); cstreams.push(st); }
-            Err(_) => { ev!(log, "pshres", dir: "c2s", sid: 0, ok: false); }
-        }
-        if i == 0 { pr.client.disable_buffering(); }
+    // the first stream alone (it ends the initial buffering), the others by overlapping calls: with a small transport
+    // capacity the write of one SYN is still pending when the next open starts
+    match pr.client.open_stream().await {
+        Ok((st, rx)) => { std::mem::forget(rx); ev!(log, "open", sid: st.id()); cstreams.push(st); }
+        Err(_) => { ev!(log, "pshres", dir: "c2s", sid: 0, ok: false); }
     }
+    pr.client.disable_buffering();
     // something must be written to flush the buffered Settings+SYN
     let _ = pr.client.write_control_frame(anytls_rs::protocol::Frame::control(anytls_rs::protocol::Command::HeartRequest, 0)).await;
+    let mut ohs = Vec::new();
+    for _ in 1..nstreams { let c = pr.client.clone(); ohs.push(tokio::task::spawn_local(async move { c.open_stream().await })); }
+    for h in ohs {
+        match h.await {
+            Ok(Ok((st, rx))) => { std::mem::forget(rx); ev!(log, "open", sid: st.id()); cstreams.push(st); }
+            _ => { ev!(log, "pshres", dir: "c2s", sid: 0, ok: false); }
+        }
+    }
     quiesce().await;
     let mut sstreams: HashMap<u32, Arc<Stream>> = HashMap::new();
     while let Ok(st) = pr.new_streams.try_recv() { sstreams.insert(st.id(), st); }
